@@ -72,33 +72,31 @@ func ParseFile(inputPath string) (areas []textArea, err error) {
 		}
 
 		for _, field := range structDecl.Fields.List {
-			var comments []*ast.Comment
-			// 字段的注释
-			if field.Comment != nil {
-				comments = append(comments, field.Comment.List...)
+			// 字段没有注释或没有 tag 的话, 没有可以注入的位置, 跳过
+			if field.Comment == nil || field.Tag == nil {
+				continue
 			}
 
-			// 组装数据
-			for _, comment := range comments {
-				tag := tagFromComment(comment.Text)
-				if tag == "" {
-					continue
+			// 一个字段可能有多个注释(如: /* @tag a:"1" */ // @tag b:"2"), 需要合并为一个 area,
+			// 否则同一位置会被处理多次, 后面的 area 位置已失效(越界 panic 或重复注入)
+			var tags []string
+			for _, comment := range field.Comment.List {
+				if tag := tagFromComment(comment.Text); tag != "" {
+					tags = append(tags, tag)
 				}
-
-				// 字段没有 tag 的话, 没有可以注入的位置, 跳过
-				if field.Tag == nil {
-					continue
-				}
-
-				currentTag := field.Tag.Value
-				area := textArea{
-					Start:      int(field.Pos()),
-					End:        int(field.End()),
-					CurrentTag: currentTag[1 : len(currentTag)-1], // 去掉 ``
-					InjectTag:  tag,
-				}
-				areas = append(areas, area)
 			}
+			if len(tags) == 0 {
+				continue
+			}
+
+			currentTag := field.Tag.Value
+			area := textArea{
+				Start:      int(field.Pos()),
+				End:        int(field.End()),
+				CurrentTag: currentTag[1 : len(currentTag)-1], // 去掉 ``
+				InjectTag:  strings.Join(tags, " "),
+			}
+			areas = append(areas, area)
 		}
 	}
 	return
